@@ -65,7 +65,11 @@ fn escape_unicode_chars(s: &str) -> String {
                 6 => esc_c.replace("\\u{", "\\u00").replace('}', ""), // example: \u{de}
                 7 => esc_c.replace("\\u{", "\\u0").replace('}', ""),  // example: \u{980}
                 8 => esc_c.replace("\\u{", "\\u").replace('}', ""),   // example: \u{23f0}
-                _ => {panic!("unexpected value")}
+                _ => {
+                    // outside the BMP: JSON escapes use a UTF-16 surrogate pair
+                    let mut buf = [0u16; 2];
+                    c.encode_utf16(&mut buf).iter().map(|u| format!("\\u{:04x}", u)).collect()
+                }
             };
 
             result.push_str(&esc_c_new);
